@@ -29,6 +29,7 @@ Inductive c27_op :=
 | OPPM (rate amt : Z) (obs : Z)
 | ONew (asset op : Z) (obs_err : bool)
 | OAdvert (peer : string) (obs_cap obs_payload : Z * Z * Z * Z)
+| OGuard (peer : string) (asset op : Z) (obs : Z)      (* peerGuard.PremiumRate *)
 | OReopen
 | ODump (obs : list (string * string)).
 
@@ -67,6 +68,8 @@ Definition c27_step (st : store) (o : c27_op) : store * bool :=
   | ONew a op e => (st, Bool.eqb (negb (new_premium_rate_ok a op)) e)
   | OAdvert p cap pay =>
       let m := code_local_capability_rates st p in (st, z4_eqb m cap && z4_eqb m pay)
+  | OGuard p a op obs =>
+      (st, guard_premium_rate premium_default_peer_id premium_default_table st p a op =? obs)
   | OReopen => (st, true)
   | ODump obs => (st, dump_matches st obs)
   end.
@@ -139,6 +142,9 @@ Definition c27_mon_step (m : smap) (o : c27_op) : smap * bool :=
   | OPPM r amt obs => (m, obs =? spec_premium r amt)
   | ONew _ _ _ => (m, true)
   | OAdvert p cap pay => (m, z4_eqb cap (spec_four m (Some p)) && z4_eqb pay (spec_four m (Some p)))
+  | OGuard p a op obs =>
+      (* the guard's rate is the rate charged, wherever the node has one *)
+      (m, match spec_rate m (Some p) a op with Some r => obs =? r | None => true end)
   | OReopen => (m, true)
   | ODump obs => (m, Nat.eqb (List.length obs) (List.length m))
   end.
